@@ -5,9 +5,9 @@ import kernel
 
 COQ_PROPS = 'props/C02.v'
 COQ_PROPS_EXTRA = ['props/C02impl.v']
-PARTIAL = ('chain rule proved for all trees over + - * / ** (positive base) atan2 (x>0 or y!=0: everywhere it is differentiable) and the 16 real functions, '
+PARTIAL = ('chain rule proved for all trees over + - * / ** (positive base with any exponent; ANY base incl. negative and zero with a plain integer-valued exponent) atan2 (x>0 or y!=0: everywhere it is differentiable) and the 16 real functions, '
            'magnitude, mag_squared, phase, unary -/+, and the implicit-function form of the components returned by function.implicit; '
-           '** with non-positive base and convergence of the implicit root search are covered by '
+           '** with a non-positive base and an uncertain or non-integer exponent, and convergence of the implicit root search are covered by '
            'correspondence/oracle only')
 ASSUMPTIONS = ['rounding error of float arithmetic is not bounded by proof (theorems are over the reals)']
 TRUSTED = ['Coquelicot (is_derive, auto_derive) and the Coq Reals library']
